@@ -453,7 +453,7 @@ class ChunkyUploadable(upload.FileHandle):
 
 
 def make_uploadable(u, data, work):
-    secret = None if u["secret"] == "none" else ("secret-" + u["secret"]).encode()
+    secret = None if u["secret"] == "none" else (b"" if u["secret"] == "empty" else ("secret-" + u["secret"]).encode())
     src = u["source"]
     if src == "Data":
         return upload.Data(data, convergence=secret)
